@@ -120,6 +120,7 @@ type ConfOpts struct {
 	Events      string // "", "report", "debug"
 	Infix       bool
 	Costs       map[string]float64
+	Spell       int // how a directive is spelled (How == "dir")
 	NoStateless bool
 }
 
@@ -169,14 +170,57 @@ func newConf(o ConfOpts, l *Log) (*eval.Config, string) {
 	on := func(j int) bool { return o.Mask&(1<<uint(j)) != 0 }
 	switch o.How {
 	case "dir":
-		dir = ";;;; "
+		// spelled in one of several equivalent ways (Spell selects: separate lines, spacing, every
+		// boolean spelling strconv.ParseBool accepts, a leading ordinary comment)
+		tw := [][2]string{{"true", "false"}, {"TRUE", "FALSE"}, {"True", "False"}, {"t", "f"}, {"T", "F"}, {"1", "0"}}[o.Spell%6]
+		word := func(b bool) string {
+			if b {
+				return tw[0]
+			}
+			return tw[1]
+		}
+		sep, colon := ", ", ":"
+		switch (o.Spell / 6) % 3 {
+		case 1:
+			sep, colon = ",", " : "
+		case 2:
+			sep = "\n;;;; "
+		}
+		if (o.Spell/18)%2 == 1 {
+			dir = "; an ordinary comment\n  "
+		}
+		dir += ";;;;"
+		if o.Spell%2 == 0 {
+			dir += " "
+		}
 		for j, n := range optNames {
 			if j > 0 {
-				dir += ", "
+				dir += sep
 			}
-			dir += string(n) + ":" + map[bool]string{true: "true", false: "false"}[on(j)]
+			dir += string(n) + colon + word(on(j))
 		}
 		dir += "\n"
+	case "dirx":
+		// pairs in random order incl. `optimize` at a random position, possibly repeated names: what
+		// they mean is decided by the specification (Parser!Directives), not here
+		names := []string{"optimize", "constant_folding", "reduce_nesting", "fast_evaluation", "reordering"}
+		n := 2 + o.Spell%4
+		x := o.Spell
+		dir = ";;;; "
+		for k := 0; k < n; k++ {
+			x = x*1103515245 + 12345
+			if x < 0 {
+				x = -x
+			}
+			if k > 0 {
+				dir += ", "
+			}
+			dir += names[(x/7)%5] + ":" + map[bool]string{true: "true", false: "false"}[(x/64)%2 == 0]
+		}
+		dir += "\n"
+		for _, n := range optNames {
+			delete(cc.CompileOptions, n) // absent: enabled unless a directive says otherwise
+		}
 	case "mix":
 		// options say the opposite; the directive (optimize:<first>, then per-option overrides) wins
 		for j, n := range optNames {
